@@ -111,7 +111,7 @@ def build():
     A(Contract("pyoak.node:ASTNode.dfs", params={"self": "Ref", "prune": "Opt[Fn]", "filter": "Opt[Fn]", "bottom_up": "bool"}, returns="Seq[Info]", props=P,
                trusted=True, trusted_reason="proved under C05: pre-order stream desc(self); additionally assumed here: in a pre-order stream every element's parent is the start node or the node of an earlier element (pre_closed), and this holds for every prefix",
                ensures=["implies(prune is None and filter is None and not bottom_up, result == desc(self))", "pre_closed(self, result)"]))
-    A(Contract(f"{TM}:Tree.__init__", params={"self": "TreeObj", "root": "Ref"}, globals=G, modifies=[], props=P,
+    A(Contract(f"{TM}:Tree.__init__", params={"self": "TreeObj", "root": "Ref"}, globals=G, modifies=["T_root", "T_pinfo", "T_xpath"], props=P,
                locals={"._node_to_parent_info": "Dict[Ref,ParentInfo]", "._node_to_xpath": "Dict[Ref,str]"},
                ensures=["T_root == root", "T_pinfo == pfold(desc(root))", "T_xpath == xfold(root, desc(root))"],
                loops={1: Loop(inv=["T_pinfo == pfold(done1)", "T_xpath == xfold(root, done1)", "pre_closed(root, done1)", "pre_closed(root, seq1)",
